@@ -83,7 +83,7 @@ Check(t) ==
 (* releasing the node locks: after a conflict, after an abort, or after the commit *)
 Unlock(t) ==
   /\ \/ pc[t] = "locked" /\ \E n \in Upd[t] : ~CanStage(t, n)      \* conflict found under the locks
-     \/ pc[t] = "aborting" /\ st[t] = {}
+     \/ pc[t] = "aborting" /\ st[t] = {} /\ ~plog[t]
      \/ pc[t] = "logged" /\ fl[t] = Upd[t] /\ ~plog[t]      \* the priority log is removed before the locks go
   /\ \E n \in N : lock[n] = t
   /\ lock' = [n \in N |-> IF lock[n] = t THEN None ELSE lock[n]]
@@ -104,9 +104,11 @@ WriteBlob(t, n) ==
   /\ bw' = [bw EXCEPT ![t] = @ \cup {n}]
   /\ UNCHANGED <<h, lock, pc, try, rv, lh, st, fl, od, plog, succ>>
 
-(* something else of the commit failed after the reservation: undo it *)
+(* something else of the commit failed after the reservation - possibly after the priority log was written, *)
+(* but before any record was flipped: undo it                                                               *)
 Abort(t) ==
-  /\ pc[t] = "checked"
+  /\ \/ pc[t] = "checked"
+     \/ pc[t] = "logged" /\ fl[t] = {}
   /\ pc' = [pc EXCEPT ![t] = "aborting"]
   /\ UNCHANGED <<h, blob, lock, try, rv, lh, st, fl, bw, od, plog, succ>>
 
@@ -141,7 +143,9 @@ Flip(t, n) ==
 
 (* after the flips: the priority log goes, the superseded blobs go, the locks go (Unlock) *)
 Unplog(t) ==
-  /\ pc[t] = "logged" /\ fl[t] = Upd[t] /\ plog[t]
+  /\ \/ pc[t] = "logged" /\ fl[t] = Upd[t]
+     \/ pc[t] = "aborting"
+  /\ plog[t]
   /\ plog' = [plog EXCEPT ![t] = FALSE]
   /\ UNCHANGED <<h, blob, lock, pc, try, rv, lh, st, fl, bw, od, succ>>
 
